@@ -9,4 +9,6 @@ CONSTANTS Devs = {"OpenBraceGapDropped", "SameLineStatementsGlued", "ElseOnNewLi
   CodeMargins = {0, 6}
   ReplayIndent = 2
   CasePairs = {"lu", "ul"}
+  MaxWidth = 65535
+  FormLimit = 31
 INVARIANTS CommentsKept NoJoin TerminalsKept StepwiseIsFunctional OneStatementPerLine NoTrailingBlanks NoDoubleBlank ContinuationVerbatim ElseStaysAttached
